@@ -2434,6 +2434,7 @@ def normalize_module(tree: ast.Module, extern=None) -> ast.Module:
     n2.inline_loop_helpers(tree)
     n2.closure_forms(tree)
     n2.lift_local_defs(tree)
+    n2.flatten_chain_lists(tree)
     n2.generators_to_lists(tree)
     n2.class_constants(tree)
     for n in ast.walk(tree):
